@@ -8,9 +8,11 @@ package apk
 //@ import "io"
 //@ import "archive/tar"
 //@ import "github.com/goreleaser/nfpm/v2"
+//@ import "github.com/goreleaser/nfpm/v2/files"
 //
 //@ func (a *Apk) Package(info *nfpm.Info, apk io.Writer) (err error)
 //@   requires info != nil
+//@   requires files.SpecContentsNonNil(info.Contents)
 //@   requires !flag("failed") && !flag("clockRead") && !flag("envRead")
 //@   ensures [C06] loud: implies(err == nil, !flag("failed"))
 //@   ensures [C07] no-clock: implies(!old(info.MTime.IsZero()), !flag("clockRead"))
